@@ -418,8 +418,8 @@ def same_gate_function_part(ctx):
             def pred(x):
                 return x > 1
             a, b = rng.sample(names, 2), rng.sample(names, 2)
-            if a == b:
-                b = list(reversed(a))
+            if a == b or rng.random() < 0.4:
+                b = list(reversed(a))       # the same two branches the other way round
             g1 = IfElseNode(pred, when_true=a[0], when_false=a[1], name="g1", cache=True)
             g2 = IfElseNode(pred, when_true=b[0], when_false=b[1], name="g2", cache=True)
             desc = {"kind": kind, "g1": a, "g2": b}
